@@ -326,3 +326,36 @@ def pdist(x1, y1, x2, y2):
 
 
 OPAQUE |= {"not_crossable"}
+
+
+# ------------------------------------------------------------------ C05 viewshed geometry
+def cross2(ax, ay, bx, by):
+    # z-component of (ax, ay) x (bx, by): > 0 when b is counter-clockwise of a (angular span < pi)
+    return ax * by - ay * bx
+
+
+def vs_dx(x, vcol):
+    return x - vcol
+
+
+def vs_dy(y, vrow):
+    # sweep angles are measured counter-clockwise with "up" = smaller row index
+    return vrow - y
+
+
+def spec_gradient(row, col, elev, vrow, vcol, velev, ew_res, ns_res):
+    # gradient of the line of sight: atan(elevation difference / horizontal distance); columns scale with ew_res, rows with ns_res
+    dx = (col - vcol) * ew_res
+    dy = (row - vrow) * ns_res
+    d2 = dx * dx + dy * dy
+    if d2 == 0:
+        if elev - velev > 0:
+            return pi / 2
+        if elev - velev < 0:
+            return -pi / 2
+        return 0.0
+    return atan((elev - velev) / sqrt(d2))
+
+
+def spec_dist2(row, col, vrow, vcol, ew_res, ns_res):
+    return ((col - vcol) * ew_res) * ((col - vcol) * ew_res) + ((row - vrow) * ns_res) * ((row - vrow) * ns_res)
